@@ -411,6 +411,7 @@ impl FixedCapacityMemoryPool {
 
     /// Ensure memory is allocated (lazy allocation)
     fn ensure_memory_allocated(&self) -> Result<()> {
+        verif_point!("fc.ensure");
         // Check if already initialized (safe read through UnsafeCell)
         unsafe {
             if (*self.memory.get()).is_some() {
@@ -507,6 +508,7 @@ impl FixedCapacityMemoryPool {
 
         // Try to pop from free list
         loop {
+            verif_point!("fc.alloc.load", size_class_index);
             let current_head = free_list.head.load(Ordering::Acquire);
             
             if current_head == LIST_TAIL {
@@ -514,6 +516,7 @@ impl FixedCapacityMemoryPool {
                 return self.allocate_by_splitting(size_class_index);
             }
 
+            verif_point!("fc.alloc.next", size_class_index, current_head);
             // Get pointer to current head block
             let memory = unsafe { (*self.memory.get()).ok_or_else(|| 
                 ZiporaError::invalid_data("Memory not allocated"))? };
@@ -526,6 +529,7 @@ impl FixedCapacityMemoryPool {
             }
 
             let next_offset = header.next;
+            verif_point!("fc.alloc.cas", size_class_index, current_head);
 
             // Try to update head atomically
             if free_list.head.compare_exchange_weak(
@@ -582,8 +586,10 @@ impl FixedCapacityMemoryPool {
 
         // Add to free list
         loop {
+            verif_point!("fc.free.load", size_class_index, offset);
             let current_head = free_list.head.load(Ordering::Acquire);
             header.next = current_head;
+            verif_point!("fc.free.cas", size_class_index, offset);
 
             if free_list.head.compare_exchange_weak(
                 current_head,
